@@ -16,6 +16,8 @@ InDomain(in, obs) ==
 Exp(in, form) == Selected(in.prim, in.unit, form, in.n, in.files)
 Conforms(in, obs) ==
   /\ "panic" \notin DOMAIN obs /\ "exit" \notin DOMAIN obs
+  \* the measured value is a function of the entry: named twice, an entry is judged the same way twice
+  /\ "twice_differs" \notin DOMAIN obs
   /\ obs.eq = Exp(in, "eq") /\ obs.gt = Exp(in, "gt") /\ obs.lt = Exp(in, "lt")
 Describe(in) == [eq |-> Exp(in, "eq"), gt |-> Exp(in, "gt"), lt |-> Exp(in, "lt")]
 Beyond(in) == FALSE
